@@ -1,5 +1,6 @@
 import CkbVerif.Driver.C01
 import CkbVerif.Gen.Restart
+import CkbVerif.Model.RestartView
 /-!
 C08 uses the chain-pipeline driver of C01 (ops `blk`, `deliver`, `commits`, `crashdeliver`, `restart`,
 `scan`, `burst`) and adds (harness/n08/src/c08.rs, family `fork`):
@@ -15,9 +16,28 @@ C08 uses the chain-pipeline driver of C01 (ops `blk`, `deliver`, `commits`, `cra
                              `scanList` re-submitted, then the process dies after SOME number v of
                              verifications; answers the persisted state of the prefix that equals the observed
                              one (and continues from it), else that of v = 0               -> state line
+  crashsome <id> <observed state line, spaces written as |>
+                             repeated crashes: a serialised delivery on a RESTARTED node killed at some commit
+                             (the verification commit and the harness's quiescence fence run on two threads, so
+                             the commit index does not determine the prefix): answers the persisted state of the
+                             micro-state of that delivery (`microStates`: before it, after the insert, after each
+                             step of the orphan search, after each verification) that equals the observed one
+                             (and continues from it), else the state before the delivery     -> state line
   longchain <ids>            (family `edge`) every id delivered and verified, one after the other; the harness
                              prepared the same chain directly in the database                 -> ok
   consts                     the regenerated constants of the scan window                  -> mel=… expired=… bdw=…
+
+Proposal table / view across restarts (`Model/RestartView.lean`):
+
+  win <close> <far>          the proposal window of the case's consensus (first line of a case) -> ok
+  prop <id> <own|-> <uncles|->   the block's own proposals zone and its uncles' zones (flattened) -> ok
+  pview <close> <far>        `Snapshot::proposals()` of the running process: the driver keeps a `Window.Node`
+                             next to the pipeline state exactly as `RestartView.xstep` does — `initAt` (the
+                             model of `init_proposal_table`) at the persisted tip whenever the process has died
+                             (`crash`, `crashdeliver`, `burstcrash`, `crash2`, `restart`), `switchTo` whenever
+                             an operation moved the tip — and answers from it; it also recomputes `initAt` at
+                             the current tip and appends ` init-differs` if the two differ as sets (they cannot:
+                             `C08.init_eq_incremental`)                         -> gap=<ids> set=<ids>
 -/
 namespace CkbVerif.Driver.C08
 open CkbVerif.Driver CkbVerif.Chain CkbVerif.Driver.C01
@@ -61,10 +81,82 @@ def step (d : St) (ts : List String) : St × String :=
       | some c => ({ d with st := some c }, stateLine d.decls c [])
       | none => ({ d with st := some s0 }, stateLine d.decls s0 [])
     | _, _ => (d, "bad-op")
+  | ["crashsome", i, obs] =>
+    match parseNat? i with
+    | some i =>
+      let cands := (microStates (treeOf d.decls) (getState d) i).map crash
+      let want := obs.replace "|" " "
+      match cands.find? (fun c => stateLine d.decls c [] == want) with
+      | some c => ({ d with st := some c }, stateLine d.decls c [])
+      | none =>
+        match cands with
+        | c :: _ => ({ d with st := some c }, stateLine d.decls c [])
+        | [] => (d, "bad-op")
+    | none => (d, "bad-op")
   | ["requeued", m, o] => C01.step d ["scan", m, o]
   | ["consts"] =>
     (d, s!"mel={maxEpochLength} expired={Gen.Chain.EXPIRED_EPOCH} bdw={Gen.Chain.BLOCK_DOWNLOAD_WINDOW}")
   | _ => C01.step d ts
 
-def main (_args : List String) : IO UInt32 := runLines ({} : St) step
+/-! ## the proposal table next to the pipeline state -/
+
+open CkbVerif.Window CkbVerif.RestartView in
+structure St8 where
+  base : St := {}
+  win : Win := ⟨2, 4⟩
+  /-- (id, own proposals zone, uncles' zones flattened) -/
+  props : List (Nat × Ids × Ids) := []
+  /-- table / view of the running process (`none` = first start on a fresh directory, not yet needed) -/
+  pv : Option Node := none
+
+open CkbVerif.Window CkbVerif.RestartView
+
+def propsOf (ps : List (Nat × Ids × Ids)) : Props :=
+  { own := fun b => match ps.find? (·.1 == b) with | some e => e.2.1 | none => []
+    uncles := fun b => match ps.find? (·.1 == b) with | some e => [e.2.2] | none => [] }
+
+def sortedSet (l : List Nat) : List Nat := (l.mergeSort (fun a b => a ≤ b)).eraseDups
+
+def viewLine (v : View) : String := s!"gap={showNatList (sortedSet v.gap)} set={showNatList (sortedSet v.set)}"
+
+/-- ops after which the model state is that of a process that has just died -/
+def diesAfter (op : String) : Bool := op == "crash" || op == "crashdeliver" || op == "burstcrash" || op == "crash2" || op == "burststop" || op == "crashsome"
+
+def step8 (d : St8) (ts : List String) : St8 × String :=
+  match ts with
+  | ["win", c, f] =>
+    match parseNat? c, parseNat? f with
+    | some c, some f => ({ d with win := ⟨c, f⟩ }, "ok")
+    | _, _ => (d, "bad-op")
+  | ["prop", i, o, u] =>
+    match parseNat? i, parseNatList? o, parseNatList? u with
+    | some i, some o, some u => ({ d with props := d.props ++ [(i, o, u)] }, "ok")
+    | _, _, _ => (d, "bad-op")
+  | ["pview", c, f] =>
+    match parseNat? c, parseNat? f with
+    | some c, some f =>
+      if c != d.win.close || f != d.win.far then (d, "bad-window") else
+      let T := treeOf d.base.decls
+      let P := propsOf d.props
+      let tip := (getState d.base).tip
+      let pv := d.pv.getD (initAt d.win P T tip)
+      let fresh := initAt d.win P T tip
+      let line := viewLine pv.view
+      ({ d with pv := some pv }, if line == viewLine fresh.view then line else line ++ " init-differs")
+    | _, _ => (d, "bad-op")
+  | op :: _ =>
+    let before := getState d.base
+    let (b', out) := step d.base ts
+    let after := getState b'
+    let T := treeOf b'.decls
+    let P := propsOf d.props
+    let pv :=
+      if diesAfter op then some (initAt d.win P T after.tip)
+      else
+        let pv0 := if op == "restart" then initAt d.win P T before.tip else d.pv.getD (initAt d.win P T 0)
+        if after.tip = before.tip then some pv0 else some (switchTo d.win P T pv0 before.tip after.tip)
+    ({ d with base := b', pv := pv }, out)
+  | [] => (d, "bad-op")
+
+def main (_args : List String) : IO UInt32 := runLines ({} : St8) step8
 end CkbVerif.Driver.C08
